@@ -23,3 +23,36 @@ Fixpoint bits_of_string (s : string) : option (list bool) :=
    equal to ''.join of '0' / '1' characters) *)
 Definition care_of_strings (l : list string) : list (list bool) :=
   flat_map (fun s => match bits_of_string s with Some v => [v] | None => [] end) l.
+
+(* ---- _get_internal_gates: breadth-first search from the outputs down to the inputs ----
+   visited is the set of labels that were ever put into a queue (label_is_visited); one visited set is shared by the
+   searches from all outputs; a label is recorded when it is taken from the queue and is neither an input nor an
+   output; the operands of an input are not expanded.  fuel counts the evaluations of the loop condition
+   `while queue` of ONE search (the generated code has this shape; Err OutOfFuel also when the queue is empty). *)
+Definition bfs_visit (vq : list label * list label) (o : label) : list label * list label :=
+  if memb o (fst vq) then vq else (fst vq ++ [o], snd vq ++ [o]).
+
+Fixpoint bfs_internal (fuel : nat) (c : circuit) (ins outs acc visited queue : list label)
+  : res (list label * list label) :=
+  match fuel with
+  | O => Err OutOfFuel
+  | S fuel' =>
+    match queue with
+    | [] => Ok (acc, visited)
+    | l :: q =>
+      let acc' := if memb l ins || memb l outs then acc else acc ++ [l] in
+      if memb l ins then bfs_internal fuel' c ins outs acc' visited q else
+      do g <- get_gate c l;
+      let vq := fold_left bfs_visit (gops g) (visited, q) in
+      bfs_internal fuel' c ins outs acc' (fst vq) (snd vq)
+    end
+  end.
+
+Definition internal_step (fuel : nat) (c : circuit) (ins outs : list label) (av : list label * list label)
+           (o : label) : res (list label * list label) :=
+  if memb o (snd av) then bfs_internal fuel c ins outs (fst av) (snd av) []
+  else bfs_internal fuel c ins outs (fst av) (snd av ++ [o]) [o].
+
+Definition internal_gates (fuel : nat) (c : circuit) (ins outs : list label) : res (list label) :=
+  do r <- foldM (internal_step fuel c ins outs) outs ([], []);
+  Ok (fst r).
